@@ -11,6 +11,13 @@ def layers(toks, spc=0, tier='quick'):
               unwind=24, unwindset=['strlen.0:40', 'memcmp.0:2000', 'harness.0:2000'], tier=tier, timeout=600, mem_gb=8,
               statement='decompressor chain built from Content-Encoding: length <= layer limit, lzma within its limit, stale decompressor released first, nothing when decompression is disabled',
               bounds='Content-Encoding "%s" (SP-after-comma mask %d), layer limit 0..3, lzma limit 0..2, decompression enabled/disabled, stale decompressor present/absent (all symbolic)' % (', '.join(toks), spc))
+UG = ['htp_decompressors.c']
+def glue(scen, len1, len2=0, tier='quick', timeout=600, mem_gb=10, kfs=(), plan=('E',) * 6, fmt='gzip', cberr=None, n1=None):
+    maxstep = len(plan); RC = {'O': 'Z_OK', 'S': 'Z_STREAM_END', 'E': 'Z_DATA_ERROR', 'B': 'Z_BUF_ERROR'}
+    return Ob('glue.s%d.L%d_%d.%s%s' % (scen, len1, len2, ''.join(plan), ('' if fmt == 'gzip' else '.deflate') + ('' if cberr is None else '.cberr%d' % cberr) + ('' if n1 is None else '.n%d' % n1)), 'decomp/glue.c', units=UG, models=['@libc_model.c'], remove=[], defines=dict({'SCEN': scen, 'LEN1': len1, 'LEN2': len2, 'RCPLAN': '{' + ','.join(RC[c] for c in plan) + '}'}, **dict({} if fmt == 'gzip' else {'FMT_DEFLATE': 1}, **dict({} if cberr is None else {'CBERR': cberr}, **({} if n1 is None else {'N1': n1})))), unwind=max(len1, len2) + 3, unwindset=['htp_gzip_decompressor_decompress:1'],
+              unwind_by=[(r'^harness', 16), (r'^LzmaDec_Allocate', 7), (r'^memcpy', 16), (r'^htp_gzip_decompressor_decompress\.0', 6), (r'^htp_gzip_decompressor_decompress\.1', maxstep + 4), (r'^htp_gzip_decompressor_probe', max(max(len1, len2) - 8, 2))],
+              restrict_by=[(r'callback', 'cb')], fp_strict=True, tier=tier, timeout=timeout, mem_gb=mem_gb, kfs=list(kfs), flags=['--unwindset', 'htp_gzip_decompressor_decompress:1'] if False else [],
+              statement='decompression glue scenario %d' % scen, bounds='chunks of %d and %d symbolic bytes' % (len1, len2))
 def obligations(tier):
     obs = [Ob('decomp.bomb_arithmetic', 'tx/decomp.c', units=U, models=['@libc_model.c', '@fixed_alloc.c'], remove=['htp_log', 'bstr_alloc', 'bstr_expand', 'htp_req_run_hook_body_data', 'htp_res_run_hook_body_data'], defines={'FUNC': 1, 'FA_CAP': 32},
               unwind=24, unwindset=['strlen.0:40', 'memcmp.0:2000', 'harness.0:2000'], tier='quick', timeout=600, mem_gb=8,
@@ -18,4 +25,5 @@ def obligations(tier):
               bounds='all 62-bit entity lengths, every non-negative int32 limit, message length < 2^51, block length 0..8192, both directions')]
     combos = [('gzip', 'gzip', 'gzip'), ('gzip', 'deflate'), ('lzma', 'gzip'), ('gzip', 'lzma'), ('lzma', 'lzma'), ('x', 'gzip', 'none'), ('deflate',), ('gzip', 'x', 'lzma')]
     obs += [layers(c, spc) for c in combos for spc in (0, 6)]
+    obs += [glue(1, 4), glue(2, 5, 10, plan='OOS'), glue(3, 3, plan='OOS'), glue(3, 3, 2, plan='OOS', n1=2), glue(3, 3, 2, plan='OOS', n1=1), glue(4, 3, 0, plan='OOO', cberr=0), glue(4, 3, 2, plan='OOO', cberr=0, n1=2), glue(4, 3, 2, plan='OOO', cberr=1, n1=1)]
     return obs
